@@ -3,9 +3,9 @@ import Pi2.MM.Ast
 # The slicer (`metamath/metamath_extract_slice.py`: `slice_database`,
 `supporting_database_for_provable`, `match_axiom`, `deconstruct_provable`, `construct_axiom`)
 
-Python sets are lists here; where the real code iterates a set to produce output (`$d` statements
-from `global_disjoints`, a `set` of `frozenset`s) the model fixes one order and the correspondence
-harness compares modulo that order (stated in the evidence).  `none` = the real code raises.
+Python sets are lists here (no output depends on the iteration order of a set any more: after the commit
+"keep a top-level $d statement at its place in a slice" the `$d` statements live in the ordered dictionary
+`cut_antecedents`).  `none` = the real code raises.
 Parentheses in a compressed proof are assumed to be standalone tokens (the real code searches the
 proof *string* for the characters).  Core Lean only.
 -/
@@ -127,32 +127,56 @@ def deconstructProvable : MStmt → Option (List MStmt × MStmt)
 def constructAxiom (ants : List MStmt) (label : String) (terms : List MTerm) : MStmt :=
   if ants.isEmpty then .ax label terms else .block (ants ++ [.ax label terms])
 
+/-- `cut_antecedents`: an ordered dictionary.  The key of a labelled entry is `some label`; a top-level `$d`
+statement is filed by the real code under the string `'$d {len(cut_antecedents)}'`, which is a new key whenever it
+is used (every earlier `$d` key carries a smaller number) and — labels being tokens, without blanks — never a label:
+such an entry has the key `none` here and is appended.  Only labels are ever looked up. -/
+abbrev Cut := List (Option String × MStmt)
+
 /-- ordered dictionary update (`d[k] = v`: an existing key keeps its position) -/
-def dictSet (d : List (String × MStmt)) (k : String) (v : MStmt) : List (String × MStmt) :=
-  if d.any (·.1 == k) then d.map fun (k', v') => if k' == k then (k', v) else (k', v') else d ++ [(k, v)]
+def dictSet (d : Cut) (k : String) (v : MStmt) : Cut :=
+  if d.any (·.1 == some k) then d.map fun (k', v') => if k' == some k then (k', v) else (k', v')
+  else d ++ [(some k, v)]
 
 def sortDedup (xs : List String) : List String :=
   (xs.mergeSort (fun a b => a ≤ b)).eraseDups
 
-/-- unordered pairs of distinct names of one `$d` statement, each pair sorted -/
-def disjPairs (vs : List String) : List (String × String) :=
-  vs.flatMap fun a => (vs.filter fun b => a < b).map fun b => (a, b)
-
-def sugarOf (cut : List (String × MStmt)) (label : String) : Option String :=
+def sugarOf (cut : Cut) (label : String) : Option String :=
   if label.endsWith "is-pattern" then
     let sugar := (label.dropEnd "is-pattern".length).toString ++ "is-sugar"
-    if cut.any (·.1 == sugar) then some sugar else none
+    if cut.any (·.1 == some sugar) then some sugar else none
   else none
 
+/-- the labels of the essential hypotheses stated outside a block: hypotheses of every later assertion -/
+def topEssLabels (cut : Cut) : List String :=
+  cut.filterMap fun (k, st) =>
+    match st with
+    | .ess _ _ => k
+    | _ => none
+
+/-- what `supporting_database_for_provable` does with one entry of `cut_antecedents`: a `$d` statement stays where it
+is, restricted to the needed metavariables (if more than one remains); a needed statement and the floating statement
+of a needed metavariable are kept -/
+def nameNeeded (needed : List String) : Option String → Bool
+  | some n => needed.contains n
+  | none => false
+
+def keepEntry (needed mvs : List String) : Option String × MStmt → Option MStmt := fun (name, st) =>
+  match st with
+  | .disj vs =>
+      let r := vs.filter fun v => mvs.contains v
+      if r.length > 1 then some (.disj r) else none
+  | .float _ _ v => if nameNeeded needed name || mvs.contains v then some st else none
+  | _ => if nameNeeded needed name then some st else none
+
 /-- `supporting_database_for_provable` -/
-def supportingDb (cut : List (String × MStmt)) (disjoints : List (String × String))
-    (syntaxDeps : List (String × List String)) (label : String) (terms : List MTerm) (proof : List String)
-    (essentials : List MStmt) : Option MDb := do
+def supportingDb (cut : Cut) (syntaxDeps : List (String × List String)) (label : String) (terms : List MTerm)
+    (proof : List String) (essentials : List MStmt) : Option MDb := do
   let labels ← proofLabels proof
   let needed1 := labels ++ labels.filterMap (sugarOf cut)
-  let needed := needed1 ++ needed1.flatMap fun l => (syntaxDeps.lookup l).getD []
+  let needed := needed1 ++ (needed1.flatMap fun l => (syntaxDeps.lookup l).getD []) ++ topEssLabels cut
   -- `cut_antecedents[lemma_name]` for every needed lemma (`KeyError` otherwise)
-  let neededStmts ← needed.mapM fun l => cut.lookup l
+  let neededStmts ← needed.mapM fun l => cut.lookup (some l)
   let all := MStmt.prov label terms proof :: (essentials ++ neededStmts)
   let consts ← stmtsConstants all
   let mvs := stmtsMvs all
@@ -163,17 +187,11 @@ def supportingDb (cut : List (String × MStmt)) (disjoints : List (String × Str
     | _ => none
   let constStmt := MStmt.const (sortDedup (defaultConstants ++ consts ++ keptTypecodes))
   let varStmt := if mvs.isEmpty then [] else [MStmt.var (sortDedup mvs)]
-  let disjStmts := (disjoints.filter fun (a, b) => mvs.contains a && mvs.contains b).map fun (a, b) => MStmt.disj [a, b]
-  let kept := cut.filterMap fun (name, st) =>
-    if needed.contains name then some st else
-    match st with
-    | .float _ _ v => if mvs.contains v then some st else none
-    | _ => none
-  pure (constStmt :: (varStmt ++ disjStmts ++ kept ++ [.block (essentials ++ [.prov label terms proof])]))
+  let kept := cut.filterMap (keepEntry needed mvs)
+  pure (constStmt :: (varStmt ++ kept ++ [.block (essentials ++ [.prov label terms proof])]))
 
 structure SliceSt where
-  cut : List (String × MStmt) := []
-  disjoints : List (String × String) := []
+  cut : Cut := []
   out : List (String × MDb) := []
 
 /-- one top-level statement of `slice_database` -/
@@ -182,21 +200,19 @@ def sliceStep (syntaxDeps : List (String × List String)) (incl excl : List Stri
   match s with
   | .const _ => some st
   | .var _ => some st
-  | .disj vs => some { st with disjoints := (st.disjoints ++ disjPairs vs).eraseDups }
+  | .disj _ => some { st with cut := st.cut ++ [(none, s)] }
   | .float l _ _ => some { st with cut := dictSet st.cut l s }
+  | .ess l _ => some { st with cut := dictSet st.cut l s }
   | _ => do
     match ← matchAxiom s with
     | some (.ax l _) => pure { st with cut := dictSet st.cut l s }
     | some _ => none
-    | none =>
-      match s with
-      | .ess _ _ => pure st                     -- the final `else` of the loop: ignored
-      | _ => do
+    | none => do
         let (ants, concl) ← deconstructProvable s
         match concl with
         | .prov l ts pf => do
             let out ← if incl.contains l && !excl.contains l then do
-                pure (st.out ++ [(l, ← supportingDb st.cut st.disjoints syntaxDeps l ts pf ants)])
+                pure (st.out ++ [(l, ← supportingDb st.cut syntaxDeps l ts pf ants)])
               else pure st.out
             pure { st with out := out, cut := dictSet st.cut l (constructAxiom ants l ts) }
         | _ => none
